@@ -52,6 +52,8 @@ var Palette = []uint32{
 	0x2200ffff, // target >= 2^256: work 0
 	0x0200ffff, // exponent < 3 (target 0xff): giant work 2^248
 	0x03000001, // target 1: work 2^255
+	0x1b000002, 0x1b000002, // target 2^193: work 2^63-1 - two of them on one branch carry the cumulated work across 2^64
+	0x1b000004, // work 2^62-1
 	0x21000001, // exponent 33, one-byte mantissa: target 2^240, work 65535
 	0x2100ffff, // exponent 33, two-byte mantissa: target just below 2^256, work 1
 	0x22000001, // exponent 34, one-byte mantissa: target 2^248, work 255
@@ -164,7 +166,7 @@ func DrawBits(t *rapid.T, o GenOpts) uint32 {
 		return rapid.Uint32().Draw(t, "bitsr")
 	case 1:
 		// lattice: any exponent around the interesting sizes with a mantissa of one, two or three bytes
-		exp := rapid.SampledFrom([]uint32{0, 1, 2, 3, 4, 29, 30, 31, 32, 33, 34, 35, 36, 255}).Draw(t, "bitse")
+		exp := rapid.SampledFrom([]uint32{0, 1, 2, 3, 4, 26, 27, 28, 29, 30, 31, 32, 33, 34, 35, 36, 255}).Draw(t, "bitse")
 		man := rapid.Uint32Range(1, 0x7fffff).Draw(t, "bitsm") >> rapid.SampledFrom([]uint{0, 0, 8, 16}).Draw(t, "bitss")
 		return exp<<24 | man
 	}
